@@ -1525,6 +1525,10 @@ func (v *VMValue) ComputedExecute(ctx *Context, detail *BufferSpan) *VMValue {
 		opCount := vm.NumOpCount
 		if err := vm.Parse(cd.Expr); err == nil {
 			vm.NumOpCount = opCount
+			// 先记下编译结果再执行: 函数体里递归调用自己时不必在每一层递归里把同一段文本再解析一遍
+			// (解析不计入算力，很长的函数体 × 几百层递归可以耗上几分钟)
+			cd.code = vm.code
+			cd.codeIndex = vm.codeIndex
 			vm.evaluate()
 		}
 		cd.code = vm.code
@@ -1626,6 +1630,10 @@ func (v *VMValue) FuncInvokeRaw(ctx *Context, params []*VMValue, useUpCtxLocal b
 		opCount := vm.NumOpCount
 		if err := vm.Parse(cd.Expr); err == nil {
 			vm.NumOpCount = opCount
+			// 先记下编译结果再执行: 函数体里递归调用自己时不必在每一层递归里把同一段文本再解析一遍
+			// (解析不计入算力，很长的函数体 × 几百层递归可以耗上几分钟)
+			cd.code = vm.code
+			cd.codeIndex = vm.codeIndex
 			vm.evaluate()
 		}
 		cd.code = vm.code
